@@ -195,6 +195,11 @@ func (l *List) LRem(key string, count int, value []byte) (int, error) {
 	}
 	size, _ := l.Size(key)
 
+	// removing more than size occurrences from the tail is removing at most size of them
+	if count < -size {
+		count = -size
+	}
+
 	needRemovedNum, err := l.LRemNum(key, count, value)
 	if err != nil {
 		return 0, err
@@ -265,6 +270,10 @@ func (l *List) LRemNum(key string, count int, value []byte) (int, error) {
 	}
 
 	tempVal := l.Items[key]
+
+	if count < -size {
+		count = -size
+	}
 
 	if count < 0 {
 		count = -count
